@@ -40,6 +40,17 @@ def run(ctx):
     except (AnchorMissing, Unsupported, KeyError) as e:
         ctx.violation("ANCHOR-MISSING", "primitives", ("", 0, ""), "%s: %s" % (type(e).__name__, e))
     ctx.assumptions = [ASSUMPTIONS[k] for k in ("A1", "A2", "A3")]
+    try:
+        # "in the narrowest standard width holding its encoded size", "booleans": the width dispatch of C03
+        from . import c03
+        from .grammar import Extractor, SPEC_VALUE_TYPES, SPEC_STATUS_TYPES
+        ctx.rule("R-C03-WIDTH", "(shared with C03) per (type, length) class of the TLF: parsed by the narrowest specified type whose acceptance box contains "
+                                "the class, bound into that type's variant; every other class is TlfMismatch")
+        X = Extractor(A, F)
+        c03.check_dispatch(ctx, F, A, X, "parser::common::Value", SPEC_VALUE_TYPES)
+        c03.check_dispatch(ctx, F, A, X, "parser::common::Status", SPEC_STATUS_TYPES)
+    except (AnchorMissing, Unsupported, KeyError) as e:
+        ctx.violation("ANCHOR-MISSING", "dispatch", ("", 0, ""), "%s: %s" % (type(e).__name__, e))
     ctx.explanation = (
         "TLF and primitive decoding decided structurally on the real bodies by value-range analysis: every arithmetic step on a decoded "
         "length must be value-exact or fail into an error (lossy operations are detected by operand ranges, not by syntax), all error "
@@ -125,6 +136,8 @@ def run_rules(ctx, F, A):
     ip.summarizable = old_sum
     ctx.rule("R-C12-ACC", "on every successful path the returned length equals the base-16 number formed by the low nibbles of all consumed "
                           "bytes (ghost accumulator G' = 16*G + (byte & 15) per consumed byte), minus the consumed byte count unless the type is a list")
+    ctx.rule("R-C12-REJECT", "the TLF parser refuses a field only for a reason the rule prescribes: overflow only when the concatenated groups "
+                             "exceed 32 bits, underflow only when the value is below the field's own size, end of input only when no byte is left")
     errs = set()
     n_ok = 0
     n_unattributed = 0
@@ -134,9 +147,31 @@ def run_rules(ctx, F, A):
             ev = err_variant(F, s2, rv)
             if ev == "InvalidTlf":
                 e = rv.pay[1][0].pay[s2.const_of(rv.pay[1][0].disc)][0]
-                errs.add(F.adts[TLFE]["variants"][s2.const_of(e.disc)]["name"])
-            else:
-                errs.add(ev)
+                ev = F.adts[TLFE]["variants"][s2.const_of(e.disc)]["name"]
+            errs.add(ev)
+            # ---- every rejection must be justified by the value the field denotes (completeness: nothing well-formed is refused)
+            acc, cnt = s2.mem.get(G_ACC), s2.mem.get(G_CNT)
+            if s2.ghost.get("c12-acc-lost") or acc is None or cnt is None:
+                n_unattributed += 1
+                continue
+            why = None
+            if ev == "TlfLengthOverflow":
+                # the accumulated value does not fit 32 bits (now, or with the group that must follow), or 2^32-1 bytes were consumed
+                if not (s2.prove_ge0(acc.lin - (1 << 28)) or s2.prove_ge0(cnt.lin - ((1 << 32) - 1))):
+                    why = "TlfLengthOverflow is reported although the concatenated length groups may still fit 32 bits (accumulated %s after %s bytes)" % (
+                        s2.describe(acc.lin), s2.describe(cnt.lin))
+            elif ev == "TlfLengthUnderflow":
+                if not s2.prove_ge0(cnt.lin - acc.lin - 1):
+                    why = "TlfLengthUnderflow is reported although the length may be at least the field's own size (accumulated %s, consumed %s)" % (
+                        s2.describe(acc.lin), s2.describe(cnt.lin))
+            elif ev == "UnexpectedEOF":
+                if not s2.prove_eq0(inp.n - cnt.lin):
+                    why = "UnexpectedEOF is reported although input bytes may remain (input length %s, consumed %s)" % (s2.describe(inp.n), s2.describe(cnt.lin))
+            if ev in ("TlfLengthOverflow", "TlfLengthUnderflow", "UnexpectedEOF"):
+                ctx.count("R-C12-REJECT")
+                ctx.oblig(why is None)
+                if why:
+                    ctx.violation("R-C12-REJECT", ev, where_tlf, why)
             continue
         n_ok += 1
         rest, tlf = okp
